@@ -27,6 +27,12 @@ AppsRT  == {<<"F", "I">>, <<"I", "F">>}
 AlphaLegacy3 == {[a |-> "lpop", flags |-> {1}], [a |-> "lpop", flags |-> {1, 3}], [a |-> "lpush", flags |-> {2}],
                  [a |-> "push", args |-> <<2>>], [a |-> "pop", args |-> <<1>>], [a |-> "flip", args |-> <<1>>],
                  [a |-> "roll", m |-> 2, n |-> 1], [a |-> "add", e |-> 1, c |-> 1]}
+\* three-step programs over index lists with repeats (a wrong stack content only shows when a
+\* later step reads it)
+MidLists == {<<1>>, <<3>>, <<1, 2>>, <<2, 1>>, <<3, 3>>, <<1, 1, 2>>}
+AlphaMid3 == {[a |-> x, args |-> l] : x \in {"push", "pop", "flip"}, l \in MidLists}
+             \cup {[a |-> x, m |-> p[1], n |-> p[2]] : x \in {"roll", "unroll"}, p \in {<<2, 1>>, <<3, 1>>, <<3, -1>>}}
+             \cup {[a |-> "swap"], [a |-> "add", e |-> 1, c |-> 1]}
 AppsFI  == {<<"F", "I">>}
 \* simulation of long programs: an alphabet biased towards pushes so that
 \* long programs do not all underflow at once
